@@ -61,7 +61,7 @@ func (g *Gen) faultyBody(ups []string, depth int) []L.Stmt {
 	var ss []L.Stmt
 	n := 2 + g.n(4, "fbn")
 	for i := 0; i < n; i++ {
-		switch g.n(15, "fbkind") {
+		switch g.n(16, "fbkind") {
 		case 12:
 			// the failing function is reached through a table field whose name is unusual text (the call site's name ends
 			// up in tracebacks and messages)
@@ -113,6 +113,13 @@ func (g *Gen) faultyBody(ups []string, depth int) []L.Stmt {
 			// inside a function called through a host function (Go re-entry)
 			g.class("err:through_host_call")
 			ss = append(ss, emit(call(name("hostcall"), fn([]string{"p"}, false, blk(g.siteStmt(), ret(name("p"), str("from callback")))), num(7))))
+		case 15:
+			// host functions directly under host functions: a library function that fails by itself under pcall, and callbacks
+			// of sort that is itself called through pcall(table.sort, ...) - two host frames between the fault
+			// and the Lua code; every position prefix still names a line of the chunk
+			g.class("err:two_host_frames_between_fault_and_lua_code")
+			ss = append(ss, emit(str("rep under pcall"), call(name("pcall"), field(name("string"), "rep"))),
+				emit(str("sort under pcall"), call(name("select"), num(1), call(name("pcall"), field(name("table"), "sort"), tbl(pos(num(3)), pos(num(1)), pos(num(2))), fn([]string{"x", "y"}, false, blk(g.siteStmt(), ret(bin("<", name("x"), name("y")))))))))
 		case 14:
 			// the protecting or re-entering host function is reached through an expression that has no name (a table slot, a
 			// call result, a parenthesised or logical expression)
